@@ -903,6 +903,59 @@ pub fn run(cfg: &Cfg, rep: &mut Report) {
     }
 }
 
+/// C02: every pure library function called from program text with the boundary product of its parameter types (both int
+/// pools): whatever it returns, an accepted call must not panic
+pub fn panic_sweep(cfg: &Cfg, rep: &mut Report) {
+    let interp = Interpreter::with_stdlib();
+    let Some(std_value) = interp.get_variable("std").cloned() else { return };
+    let mut funcs = Vec::new();
+    let mut consts = Vec::new();
+    walk(&std_value, String::new(), &mut funcs, &mut consts);
+    let mut rng = cfg.rng(1802);
+    let printable = |v: &Variable| match v {
+        Variable::Float(x) => x.is_finite(),
+        Variable::Int(x) => *x != i64::MIN,
+        Variable::Function(_) | Variable::Mut(_) | Variable::Struct(_) | Variable::Array(_) | Variable::Tuple(_) => false,
+        _ => true,
+    };
+    for (k, (path, fun)) in funcs.iter().enumerate() {
+        if !cfg.owns(k as u64) || path.starts_with("fs.") || path.starts_with("io.") {
+            continue;
+        }
+        let Ty::Fun(ps, _) = Ty::from_real(&fun.as_type()) else { continue };
+        if ps.is_empty() {
+            continue;
+        }
+        for ext in [false, true] {
+            let lists: Vec<Vec<Variable>> = ps.iter().map(|p| boundary(p, &mut rng, ext).into_iter().filter(|v| printable(v)).collect()).collect();
+            if lists.iter().any(Vec::is_empty) {
+                continue;
+            }
+            let total: usize = lists.iter().map(Vec::len).product::<usize>().max(1);
+            let n = total.min(if cfg.thorough() { 6000 } else { 500 });
+            for c in 0..n {
+                let mut idx = (c as u128 * total as u128 / n as u128) as usize;
+                let mut args = Vec::new();
+                for l in &lists {
+                    args.push(l[idx % l.len()].clone());
+                    idx /= l.len();
+                }
+                let src = format!("std.{path}({})", args.iter().map(|a| format!("{a:?}")).collect::<Vec<_>>().join(", "));
+                rep.evaluations += 1;
+                rep.count("stdlib-sweep-calls");
+                rep.shape("stdlib_functions_swept", path);
+                match real::parse_exec_in(&interp, &src, 3_000).0 {
+                    Outcome::Panic(p) if p.kind == PanicKind::Panic => {
+                        rep.violation(&format!("c02:stdlib-call-panicked:{path}:{}", p.site()), &format!("`{}` is accepted and panicked: {}", truncate(&src, 200), p.short_msg()), "program-text", &src);
+                    }
+                    Outcome::Panic(_) => rep.inconclusive("stdlib-sweep:fuel-or-resource"),
+                    _ => {}
+                }
+            }
+        }
+    }
+}
+
 pub fn replay(payload: &str, rep: &mut Report) {
     rep.notes.push(format!("replay of `{}`: the whole library is cheap to re-run, so the full quick workload runs", truncate(payload.trim(), 200)));
     let cfg = Cfg { prop: "C18".into(), tier: "quick".into(), seed: 1, shard: 0, nshards: 1, out: String::new(), replay: None, budget_s: 120.0, extra: Default::default() };
